@@ -2,7 +2,7 @@
 #define HX_HAS_ROTATION 0
 #include "generic.h"
 namespace hx {
-using B_b10 = manif::Bundle<double, manif::SE3, manif::SE3>;
+using B_b10 = manif::Bundle<HX_SC, manif::SE3, manif::SE3>;
 template <> struct Extra<B_b10> {
   static bool run(const Req& r, Resp& R) {
     // element<i>() views alias exactly the i-th element's coefficients
